@@ -42,7 +42,7 @@ ASSUMPTIONS = [
     "what reaches the loop exception handler is diagnostic only",
     "timeouts > 0",
 ]
-MINIMUMS = {"monitor:cancel-honoured": 1000, "cancel_requests_too_late": 100, "monitor:terminates": 2000, "monitor:outcome": 1500, "timeouts_fired": 300, "caller_cancels_delivered": 200, "function_ended_cancelled": 50, "overlapping_calls_through_one_wrapper": 500, "function_finished_in_time_while_a_bystander_blocks_the_loop_past_the_deadline": 25, "calls_of_callables_with_another_advertised_signature": 2}
+MINIMUMS = {"monitor:cancel-honoured": 1000, "cancel_requests_too_late": 100, "monitor:terminates": 2000, "monitor:outcome": 1500, "timeouts_fired": 300, "caller_cancels_delivered": 200, "function_ended_cancelled": 50, "overlapping_calls_through_one_wrapper": 500, "function_finished_in_time_while_a_bystander_blocks_the_loop_past_the_deadline": 25, "calls_of_callables_with_another_advertised_signature": 2, "timeouted_calls_made_by_descendants_of_an_ended_timeouted_call": 100}
 JOBS = {"quick": 4, "thorough": 8}
 LEVEL_TEXT = (
     "Every cell of the table durations {0,1,1.25,2} x outcomes {value, falsy value, Exception, falsy Exception, BaseException, self-cancel, ignores-first-cancel, cancelled-cleanup-raises} x "
@@ -326,6 +326,101 @@ def run_overlap(R: Recorder, case: dict[str, Any], verbose: bool = False) -> Non
         R.monitor("nothing-left-running", fn[i]["finished_at"] is not None, where={**where, "kind": "function-still-running"}, detail=f"call {i}: {fn[i]}", case=case)
 
 
+def run_descendant(R: Recorder, case: dict[str, Any], verbose: bool = False) -> None:
+    """a timeouted function starts something that outlives it (a background task, a loop callback starting one, a ctx.spawn'ed task)
+    and ends - normally, or by its own timeout; that descendant later makes a timeouted call of its own: that call has its own deadline,
+    counted from its own start, whatever became of the call its caller descends from"""
+    from haiway import ctx, timeout
+
+    To, Ti, outer_d, wait, inner_d, how = case["outer_timeout"], case["inner_timeout"], case["outer_duration"], case["wait"], case["inner_duration"], case["how"]
+    clock = VClock()
+    t0 = clock.now
+    fn: dict[str, Any] = {"cancel_seen_at": None, "finished_at": None, "value": ("value", object())}
+    got: dict[str, Any] = {}
+    jobs: list[asyncio.Task[Any]] = []
+
+    @timeout(Ti)
+    async def inner() -> Any:
+        got["inner_started_at"] = clock.now - t0
+        try:
+            try:
+                await asyncio.sleep(inner_d)
+            except asyncio.CancelledError:
+                fn["cancel_seen_at"] = clock.now - t0
+                raise
+            return fn["value"]
+        finally:
+            fn["finished_at"] = clock.now - t0
+
+    async def background() -> None:
+        await asyncio.sleep(wait)
+        try:
+            got["inner"] = ("value", await inner(), clock.now - t0)
+        except BaseException as exc:  # noqa: BLE001
+            got["inner"] = ("raise", exc, clock.now - t0)
+
+    @timeout(To)
+    async def outer() -> str:
+        loop = asyncio.get_running_loop()
+        if how == "create_task":
+            jobs.append(loop.create_task(background()))
+        elif how == "call_soon":
+            loop.call_soon(lambda: jobs.append(loop.create_task(background())))
+        else:
+            jobs.append(ctx.spawn(background))
+        await asyncio.sleep(outer_d)
+        return "response"
+
+    async def main(loop: Any) -> None:
+        async with ctx.scope("descendants"):
+            try:
+                got["outer"] = ("value", await outer(), clock.now - t0)
+            except BaseException as exc:  # noqa: BLE001
+                got["outer"] = ("raise", exc, clock.now - t0)
+            await asyncio.sleep(0)
+            for _ in range(200):
+                if all(j.done() for j in jobs) and jobs:
+                    break
+                await asyncio.sleep(0.25)
+            got["jobs_done"] = bool(jobs) and all(j.done() for j in jobs)
+            for j in jobs:
+                j.cancel()
+            await asyncio.gather(*jobs, return_exceptions=True)
+        got["settled"] = True
+
+    with patched_time(clock):
+        status, value, loop = run_virtual(main, clock=clock, max_iterations=20000)
+    R.case(case, nontrivial=True)
+    R.count("timeouted_calls_made_by_descendants_of_an_ended_timeouted_call")
+    where = {"family": "descendant", "scoped": True, "nested": False, "how": how, "outer": "timed-out" if outer_d > To else "returned"}
+    if verbose:
+        print(f"status={status} value={value!r} got={got} fn={fn}")
+    terminated = status == "ok" and got.get("settled") and got.get("jobs_done")
+    R.monitor("terminates", bool(terminated), where={**where, "kind": status if status != "ok" else "caller-not-done"}, detail=f"run ended {status} ({value!r}); the descendant's call (timeout {Ti}, function sleeping {inner_d}) had not ended 50 s later: {got}; function={fn}", case=case)
+    if not terminated:
+        return
+    start = got.get("inner_started_at")
+    res = got.get("inner")
+    if inner_d < Ti:
+        ok = res is not None and res[0] == "value" and res[1] is fn["value"] and res[2] == start + inner_d
+        exp = f"its value at +{start + inner_d}"
+    else:
+        ok = res is not None and res[0] == "raise" and type(res[1]) is TimeoutError and res[2] == start + Ti
+        exp = f"TimeoutError at +{start + Ti}"
+        R.count("timeouts_fired")
+        R.monitor("function-cancelled", fn["cancel_seen_at"] == start + Ti, where={**where, "kind": "function-not-cancelled"}, detail=f"descendant's call started +{start} (timeout {Ti}): function saw cancellation at {fn['cancel_seen_at']}", case=case)
+    R.monitor("outcome", ok, where={**where, "kind": "wrong-outcome", "expected": "its value" if inner_d < Ti else "TimeoutError"}, detail=f"descendant's call (started +{start}, timeout {Ti}, function sleeping {inner_d}) ended {res!r}; expected {exp}; outer call (timeout {To}, sleeping {outer_d}) ended {got.get('outer')!r}", case=case)
+    R.monitor("nothing-left-running", fn["finished_at"] is not None, where={**where, "kind": "function-still-running"}, detail=f"{fn}", case=case)
+
+
+def descendant_cases():  # noqa: ANN201
+    for how in ("create_task", "call_soon", "spawn"):
+        for To, outer_d in ((0.5, 0.125), (0.5, 2.0), (4.0, 0.125)):
+            for wait in (0.25, 1.0, 6.0):
+                for Ti, inner_d in ((1.0, 8.0), (1.0, 0.5), (0.25, 8.0), (8.0, 16.0)):
+                    yield {"descendant": True, "how": how, "outer_timeout": To, "outer_duration": outer_d, "wait": wait, "inner_timeout": Ti, "inner_duration": inner_d}
+
+
 def run_rewrap(R: Recorder, case: dict[str, Any], verbose: bool = False) -> None:
     """w1 = timeout(A)(f) is kept; later w2 = timeout(B)(w1) is built from it: w1 keeps its own deadline A, w2 has min(A, B)"""
     from haiway import timeout
@@ -425,6 +520,9 @@ def run(R: Recorder, tier: str, seed: int, shard: int, nshards: int) -> None:
         argnames.check(R, "arguments", argname_wrappers())
         argnames.check_injecting(R, "arguments", argname_wrappers())
         stacking.check_transparent(R, "outcome", "timeout")
+    for i, case in enumerate(descendant_cases()):
+        if i % nshards == shard:
+            run_descendant(R, case)
     R.flags["exhaustive"] = True
     R.flags["exhaustive_core"] = "full table durations x outcomes x timeouts x cancel instants x scoped (+ nested timeouts)"
     for i, case in enumerate(cases(tier)):
@@ -441,5 +539,8 @@ def replay(R: Recorder, case: dict[str, Any]) -> None:
         return
     if "stacking" in case:
         stacking.check_transparent(R, "outcome", "timeout", only=case["stacking"])
+        return
+    if case.get("descendant"):
+        run_descendant(R, case, verbose=True)
         return
     (run_rewrap if case.get("rewrap") else run_overlap if case.get("overlap") else run_case)(R, case, verbose=True)
